@@ -7,11 +7,15 @@
     [strict = true] is the GraphQL rule, [strict = false] what graphql.PrepareQuery accepts
     (compared with PrepareQuery on every run).  [fedkeys_ok per merged]: the federation-key verdict of
     ConvertVersionedSchemas (validateFederationKeys, schema.go:42-76), compared with the implementation's
-    accept / "Invalid federation key" outcome on every run (component 4). *)
+    accept / "Invalid federation key" outcome on every run (component 4).
+    [slice_of repaired] / [merge_all_r repaired]: mergeSchemaSlice as it is ([false], the plain left fold) and as
+    repaired by patches/C09-fix-1 ([true], every pair of schemas checked first); which of the two the
+    implementation under test shows is probed on every run (c_repaired) and both are compared (components 1, 5). *)
 From Coq Require Import List String Bool ZArith.
 From Thunder Require Import Lib.Json Federation.Merge Federation.MergeProofsBase Federation.MergeProofsTref
   Federation.MergeProofs Federation.MergeProofsValid Federation.MergeProofsMore Federation.MergeProofsComm
-  Federation.MergeProofsClosed Federation.MergeProofsKeys.
+  Federation.MergeProofsClosed Federation.MergeProofsKeys Federation.MergeProofsNary Federation.MergeProofsShape
+  Federation.MergeProofsPerm Federation.MergeProofsPairs Federation.MergeProofsAll Federation.MergeProofsLevels.
 From Coq Require Import Permutation.
 Import ListNotations.
 Open Scope string_scope.
@@ -89,15 +93,129 @@ Print Assumptions union_complete.
     list of distinct names is canonical, and every per-name pair merge is symmetric.  [schemas_agree]: a union
     member / interface entry that both sides list names the same kind on both (always OBJECT / INTERFACE in an
     introspection result).
-    For the n-ary fold, invariance under permutation of services / versions is NOT proved: it needs
-    associativity of the merge, and it can only hold when both orders succeed -- see
-    [intersection_error_depends_on_order_refuted].  The harness checks renaming / reordering independence of
-    MergeIntrospectionSchemas on every generated case. *)
+    For the n-ary fold see [merge_slice_success_order_independent] (equal results whenever two orders both
+    succeed), [pairwise_compatible_every_order] (when success cannot depend on the order) and
+    [merge_all_naming_independent]; the failure outcome of the plain fold does depend on the order --
+    [intersection_error_depends_on_order_refuted].  The harness also checks renaming / reordering independence
+    of MergeIntrospectionSchemas on every generated case. *)
 Theorem merge_commutative :
   forall md a b, wf_schema a = true -> wf_schema b = true -> schemas_agree a b ->
     merge_schemas md a b = merge_schemas md b a.
 Proof. exact MergeProofsComm.merge_schemas_comm. Qed.
 Print Assumptions merge_commutative.
+
+(** n-ary, either mode: the SUCCESS outcome of mergeSchemaSlice does not depend on the order of the schemas.
+    (Not by swapping neighbours -- an intermediate order may fail -- but because the result of a successful fold
+    is, name by name at every level, the fold over the original entries of that name, which is symmetric.) *)
+Theorem merge_slice_success_order_independent :
+  forall md l l' r r',
+    (forall v, In v l -> wf_schema v = true) ->
+    (forall a b, In a l -> In b l -> schemas_agree a b) ->
+    Permutation l l' -> merge_slice md l = Some r -> merge_slice md l' = Some r' -> r = r'.
+Proof. exact MergeProofsPerm.merge_slice_perm. Qed.
+Print Assumptions merge_slice_success_order_independent.
+
+(** mergeTypeRefs folded over any number of sides: no dependence on the order at all, failure included. *)
+Theorem merge_trefs_order_independent :
+  forall is_input t l t' l', Permutation (t :: l) (t' :: l') ->
+    merge_trefs is_input t l = merge_trefs is_input t' l'.
+Proof. exact MergeProofsLevels.merge_trefs_perm. Qed.
+Print Assumptions merge_trefs_order_independent.
+
+(** When can the success of the fold depend on the order?  Only if some PAIR of the schemas does not merge:
+    compatibility with a third schema survives merging ... *)
+Theorem merge_preserves_compatibility :
+  forall md a b m c,
+    wf_schema a = true -> wf_schema b = true -> wf_schema c = true -> merge_schemas md a b = Some m ->
+    merge_schemas md a c <> None -> merge_schemas md b c <> None -> merge_schemas md m c <> None.
+Proof. exact MergeProofsPairs.merge_preserves_compat. Qed.
+Print Assumptions merge_preserves_compatibility.
+
+(** ... so a list whose pairs (i < j) all merge folds successfully in EVERY order, always to the same schema. *)
+Theorem pairwise_compatible_every_order :
+  forall md l l',
+    l <> [] -> (forall v, In v l -> wf_schema v = true) -> (forall a b, In a l -> In b l -> schemas_agree a b) ->
+    allpairs (fun a b => merge_schemas md a b <> None) l -> Permutation l l' ->
+    exists r, merge_slice md l = Some r /\ merge_slice md l' = Some r.
+Proof. exact MergeProofsPairs.pairwise_every_order. Qed.
+Print Assumptions pairwise_compatible_every_order.
+
+(** The converse fails: the plain fold can accept a list with an incompatible pair (the field is dropped before
+    the incompatible version is seen); these are exactly the lists the guarded fold newly refuses. *)
+Theorem pairwise_converse_refuted :
+  exists l r,
+    (forall v, In v l -> wf_schema v = true) /\ merge_slice Intersection l = Some r /\
+    ~ allpairs (fun a b => merge_schemas Intersection a b <> None) l /\ merge_slice_checked Intersection l = None.
+Proof. exact MergeProofsPairs.pairwise_converse_refuted. Qed.
+Print Assumptions pairwise_converse_refuted.
+
+(** The repaired mergeSchemaSlice (patches/C09-fix-1: every pair checked first, then the same fold) does not
+    depend on the order of the schemas at all -- acceptance, refusal and result. *)
+Theorem merge_slice_checked_order_independent :
+  forall md l l',
+    (forall v, In v l -> wf_schema v = true) -> (forall a b, In a l -> In b l -> schemas_agree a b) ->
+    Permutation l l' -> merge_slice_checked md l = merge_slice_checked md l'.
+Proof. exact MergeProofsPairs.merge_slice_checked_perm. Qed.
+Print Assumptions merge_slice_checked_order_independent.
+
+(** MergeIntrospectionSchemas and naming.  [svc_equiv ss ss']: the same schemas grouped the same way -- services
+    renamed and listed in any order, the versions of each renamed and listed in any order.  The code as it is:
+    if both namings are accepted, the merged schemas are equal ... *)
+Theorem merge_all_naming_independent :
+  forall ss,
+    (forall v, In v (all_schemas ss) -> wf_schema v = true) ->
+    (forall a b, In a (all_schemas ss) -> In b (all_schemas ss) -> schemas_agree a b) ->
+    forall ss', svc_equiv ss ss' ->
+    forall r r', merge_all ss = Some r -> merge_all ss' = Some r' -> r = r'.
+Proof. exact MergeProofsAll.merge_all_naming. Qed.
+Print Assumptions merge_all_naming_independent.
+
+(** ... and with the repair the whole outcome is the same, refusal included: the known finding
+    merge-error-depends-on-naming cannot occur in the repaired code. *)
+Theorem merge_all_repaired_naming_independent :
+  forall ss,
+    (forall v, In v (all_schemas ss) -> wf_schema v = true) ->
+    (forall a b, In a (all_schemas ss) -> In b (all_schemas ss) -> schemas_agree a b) ->
+    forall ss', svc_equiv ss ss' -> merge_all_r true ss = merge_all_r true ss'.
+Proof. exact MergeProofsAll.merge_all_repaired_naming. Qed.
+Print Assumptions merge_all_repaired_naming_independent.
+
+(** "An argument is required if any side requires it; an output is non-null only if every side guarantees it",
+    for any number of schemas, at schema level, either mode: a field of the merged schema exists in at least one
+    version (Intersection: in all); its type is NON_NULL at a nesting level iff it is in EVERY version that has
+    the field; each of its arguments is NON_NULL at a level iff it is in SOME version's field that has the argument. *)
+Theorem nullability_nary_at_schema_level :
+  forall md l m,
+    (forall v, In v l -> wf_schema v = true) -> merge_slice md l = Some m ->
+    forall ty mt f mf,
+      find_type m ty = Some mt -> t_kind mt = "OBJECT" -> find_field (t_fields mt) f = Some mf ->
+      let ts := types_named ty l in
+      let fs := fields_named f ts in
+      fs <> [] /\
+      (md = Intersection -> List.length ts = List.length l /\ List.length fs = List.length l) /\
+      (forall y, In y fs -> List.length (levels (f_type y)) = List.length (levels (f_type mf))) /\
+      (forall k, nth k (levels (f_type mf)) false = forallb (fun y => nth k (levels (f_type y)) false) fs) /\
+      forall a ma, find_ifield (f_args mf) a = Some ma ->
+        let es := args_named a fs in
+        es <> [] /\ (md = Intersection -> List.length es = List.length l) /\
+        (forall y, In y es -> List.length (levels (if_type y)) = List.length (levels (if_type ma))) /\
+        forall k, nth k (levels (if_type ma)) false = existsb (fun y => nth k (levels (if_type y)) false) es.
+Proof. exact MergeProofsLevels.merged_field_levels_nary. Qed.
+Print Assumptions nullability_nary_at_schema_level.
+
+(** ... and the same for the fields of an INPUT_OBJECT. *)
+Theorem nullability_nary_input_objects :
+  forall md l m,
+    (forall v, In v l -> wf_schema v = true) -> merge_slice md l = Some m ->
+    forall ty mt a ma,
+      find_type m ty = Some mt -> t_kind mt = "INPUT_OBJECT" -> find_ifield (t_inputs mt) a = Some ma ->
+      let ts := types_named ty l in
+      let es := inputs_named a ts in
+      es <> [] /\ (md = Intersection -> List.length ts = List.length l /\ List.length es = List.length l) /\
+      (forall y, In y es -> List.length (levels (if_type y)) = List.length (levels (if_type ma))) /\
+      forall k, nth k (levels (if_type ma)) false = existsb (fun y => nth k (levels (if_type y)) false) es.
+Proof. exact MergeProofsLevels.merged_input_levels_nary. Qed.
+Print Assumptions nullability_nary_input_objects.
 
 (** Closure (either mode): every type referenced from a surviving field, argument, input field or union member
     survives with the kind the reference names, given each input closed. *)
@@ -152,6 +270,49 @@ Example ex_nonvacuous :
   (exists m, merge_slice Intersection [ex_v1; ex_v2] = Some m /\ valid_query thunder_scalar_ok true m ex_q = true) /\
   valid_query thunder_scalar_ok true ex_v1 ex_q = true /\ valid_query thunder_scalar_ok true ex_v2 ex_q = true.
 Proof. vm_compute. repeat split; try reflexivity. eexists; split; reflexivity. Qed.
+
+(** Non-vacuity of the n-ary theorems: three pairwise compatible versions (fields only some have, an optional
+    argument only one has, NON_NULLs toggled at both list levels, an argument one version requires) whose intersection is the same in two orders; the version set of
+    the known finding, which has an incompatible pair, is refused by the guarded fold in both orders. *)
+Definition ex_w1 : schema := [sc_int; query_of [mk_field "f" (TNonNull INT) []; mk_field "h" (TList (TNonNull INT)) [mk_ifield "a" INT]]].
+Definition ex_w2 : schema := [sc_int; query_of [mk_field "g" INT []; mk_field "h" (TNonNull (TList INT)) [mk_ifield "a" INT]]].
+Definition ex_w3 : schema := [sc_int; query_of [mk_field "f" INT [mk_ifield "a" INT]; mk_field "h" (TList INT) [mk_ifield "a" (TNonNull INT)]]].
+Definition ex_w123 : schema := [query_of [mk_field "h" (TList INT) [mk_ifield "a" (TNonNull INT)]]; sc_int].
+
+Example ex_three_versions_two_orders :
+  (forall v, In v [ex_w1; ex_w2; ex_w3] -> wf_schema v = true) /\
+  all_pairs_ok Intersection [ex_w1; ex_w2; ex_w3] = true /\
+  merge_slice Intersection [ex_w1; ex_w2; ex_w3] = Some ex_w123 /\
+  merge_slice Intersection [ex_w3; ex_w1; ex_w2] = Some ex_w123 /\
+  merge_slice_checked Intersection [ex_w2; ex_w3; ex_w1] = Some ex_w123 /\
+  merge_slice_checked Intersection [ord_v1; ord_v2; ord_v3] = None /\
+  merge_slice_checked Intersection [ord_v1; ord_v3; ord_v2] = None.
+Proof. split; [intros v [<-|[<-|[<-|[]]]]; reflexivity | vm_compute; repeat split; reflexivity]. Qed.
+
+(** ... a renaming and reordering of services and versions that both readings accept with the same schema ... *)
+Definition ex_ss : services := [("a", [("v1", ex_w1); ("v2", ex_w2)]); ("b", [("v1", ex_v1)])].
+Definition ex_ss' : services := [("y", [("k", ex_v1)]); ("x", [("q", ex_w2); ("p", ex_w1)])].
+
+Example ex_renamed_services :
+  svc_equiv ex_ss ex_ss' /\ (exists r, merge_all ex_ss = Some r /\ merge_all ex_ss' = Some r /\
+                                       merge_all_r true ex_ss = Some r /\ merge_all_r true ex_ss' = Some r).
+Proof.
+  split.
+  - exists [("b", [("v1", ex_v1)]); ("a", [("v1", ex_w1); ("v2", ex_w2)])]. split; [apply perm_swap|].
+    repeat constructor.
+  - vm_compute. eexists. repeat split; reflexivity.
+Qed.
+
+(** ... and the n-ary nullability rule on three versions: h is a list in all three, NON_NULL outside only in one
+    and inside only in another (both dropped); its argument a is NON_NULL because one version requires it. *)
+Example ex_nullability_nary :
+  exists m mt mf ma,
+    merge_slice Union [ex_w1; ex_w2; ex_w3] = Some m /\ find_type m "Query" = Some mt /\ t_kind mt = "OBJECT" /\
+    find_field (t_fields mt) "h" = Some mf /\ levels (f_type mf) = [false; false] /\
+    List.length (fields_named "h" (types_named "Query" [ex_w1; ex_w2; ex_w3])) = 3 /\
+    find_ifield (f_args mf) "a" = Some ma /\ levels (if_type ma) = [true] /\
+    List.length (args_named "a" (fields_named "h" (types_named "Query" [ex_w1; ex_w2; ex_w3]))) = 3.
+Proof. vm_compute. do 4 eexists. repeat split; reflexivity. Qed.
 
 (** Federation keys (ConvertVersionedSchemas / validateFederationKeys).  Acceptance means: every key field a
     service asks for in Federation.<svc>_<Object>(keys:) is a field of the object on every service that is a root
